@@ -191,8 +191,14 @@ func (m *Map) pt() {
 }
 
 func (m *Map) Load(key interface{}) (interface{}, bool) { m.pt(); return m.m.Load(key) }
-func (m *Map) Store(key, value interface{})             { m.pt(); m.m.Store(key, value) }
-func (m *Map) Delete(key interface{})                   { m.pt(); m.m.Delete(key) }
+func (m *Map) Store(key, value interface{}) {
+	m.pt()
+	m.m.Store(key, value)
+	if vsched.PostStorePoints {
+		m.pt()
+	}
+}
+func (m *Map) Delete(key interface{}) { m.pt(); m.m.Delete(key) }
 func (m *Map) LoadOrStore(key, value interface{}) (interface{}, bool) {
 	m.pt()
 	return m.m.LoadOrStore(key, value)
